@@ -61,7 +61,8 @@ def observe(mage, case):
     stub = os.path.join(d, "zz_verif_stub_main.go")
     with open(stub, "w") as f:
         f.write(STUB)
-    rc, out, err = sh(["go", "build", "-tags", "mage", "-o", os.devnull, "."], cwd=d, env=goenv(), timeout=300)
+    # compiles (type-checks) the package without linking; exit status 1 on any compile error
+    rc, out, err = sh(["go", "list", "-tags", "mage", "-export", "-f", "{{.Export}}", "."], cwd=d, env=goenv(), timeout=300)
     os.remove(stub)
     ob["alone_ok"] = rc == 0
     ob["alone_err"] = err[-600:]
@@ -105,11 +106,16 @@ def observe(mage, case):
 def judge(ctx, case, ob):
     """the oracle: the property sentence over the abstract package and the observations"""
     pkg, stream = case["pkg"], case["stream"]
-    cls = stream if stream in CLASSES else "none"
+    # the known finding is about the identifiers MEASURED to fail on the unchanged tree; a package-level
+    # declaration of any other identifier that stops the build is a new violation
+    ident = case.get("ident")
+    cls = stream if (stream in CLASSES and ident in G.PREDECL_BASELINE) else "none"
     bad = []
 
     def v(clause, **kw):
         w = {"kind": "oracle", "clause": clause, "class": cls, "stream": stream}
+        if ident is not None:
+            w["ident"] = ident
         w.update(kw)
         bad.append(w)
 
@@ -124,8 +130,9 @@ def judge(ctx, case, ob):
         return bad
     desc, entries, footer = ob["listing"]
     listed = [n.rstrip("*") for n, _ in entries]
-    want = sorted(G.oracle_key(f).lower() for f in valid)
-    got = sorted(n.lower() for n in listed)
+    undecided = set(G.oracle_key(f).lower() for f in pkg["funcs"] if G.oracle_ambiguous(pkg, f))
+    want = sorted(G.oracle_key(f).lower() for f in valid if G.oracle_key(f).lower() not in undecided)
+    got = sorted(n.lower() for n in listed if n.lower() not in undecided)
     if want != got:
         v("exact-set", missing=[k for k in want if k not in got], unexpected=[k for k in got if k not in want])
     marked = [n[:-1] for n, _ in entries if n.endswith("*")]
@@ -235,17 +242,20 @@ def run(ctx):
     cases = []
     if ctx.replay and ctx.replay.get("case"):
         c = ctx.replay["case"]
-        cases.append({"stream": c["stream"], "pkg": c["pkg"]})
+        cases.append({"stream": c["stream"], "pkg": c["pkg"], "ident": c.get("ident")})
     else:
-        nmain = 40 if ctx.quick else 900
+        nmain = 32 if ctx.quick else 900
         k = 1 if ctx.quick else 12
         for _ in range(nmain):
             cases.append({"stream": "main", "pkg": G.gen_package(rng)})
         for shape in ["wrong-spec", "panic-multi", "ok-unexported-first", "ok-first", "no-own-value", "typed-no-value"] * k:
             cases.append({"stream": "default:" + shape, "pkg": G.gen_default_shape(rng, shape)})
-        for cls, n in (("import-name-clash", 4), ("predeclared-shadowed", 3), ("generic-namespace-type", 1)):
+        for cls, n in (("import-name-clash", 4), ("generic-namespace-type", 1), ("lookalike", 6)):
             for _ in range(n * k):
                 cases.append({"stream": cls, "pkg": G.gen_clash(rng, cls)})
+        # EVERY predeclared identifier, on every run (a random declaration kind each), and some ordinary names
+        for ident in G.PREDECLARED * (1 if ctx.quick else 4) + rng.sample(G.ORDINARY, 4):
+            cases.append({"stream": "predeclared-shadowed", "ident": ident, "pkg": G.gen_clash(rng, "predeclared-shadowed", ident=ident)})
     for c in cases:
         pkg = c["pkg"]
         pname = "p%04d" % (mage.n + 1)
@@ -301,7 +311,7 @@ def run(ctx):
         bad = judge(ctx, c, ob)
         c["flagged"] = bool(bad)
         for w in (bad or [])[:3]:
-            ctx.violation(w, case={"stream": c["stream"], "pkg": pkg}, extra={"files": G.render_package(pkg, os.path.basename(c["dir"]))})
+            ctx.violation(w, case={"stream": c["stream"], "pkg": pkg, "ident": c.get("ident")}, extra={"files": G.render_package(pkg, os.path.basename(c["dir"]))})
         h = case_hash(pkg)
         if h not in seen:
             seen.add(h)
@@ -323,7 +333,7 @@ def run(ctx):
                 ctx.log("MISMATCH", idx, body[:3000], "\nOBSERVED", json.dumps({k: ob[k] for k in ("listing", "helps", "run")}, default=str)[:3000])
             ctx.violation({"kind": "model-vs-implementation", "correspondence": "Run/eval_C06.mismatches", "model_says": body[:1500],
                            "listing": ob["listing"], "list_rc": ob["list_rc"], "list_err": ob["list_err"][-300:]},
-                          case={"stream": c["stream"], "pkg": c["pkg"]}, found_input=False)
+                          case={"stream": c["stream"], "pkg": c["pkg"], "ident": c.get("ident")}, found_input=False)
     if len(mism) > len(unexplained):
         ctx.notes.append("model/implementation disagreements on %d packages (reported through the oracle's violations / known findings)" % len(mism))
     ctx.log("model evaluated, %d mismatches" % len(mism))
